@@ -8,13 +8,14 @@ import vlib, fixture, runlib
 TAGS = {"C02": "C02:", "C07": "C07:", "C19": "C19:"}
 
 SCHEMES = {
-    "plain": {"a": "a", "b": "b", "af": "a/f.txt", "ag": "a/g.txt", "bf": "b/f.txt", "bi": "b/i.log", "ah": "a/h.txt", "bg": "b/g.txt"},
+    "plain": {"a": "a", "b": "b", "af": "a/f.txt", "ag": "a/g.txt", "bf": "b/f.txt", "bi": "b/i.log", "ah": "a/h.txt", "bg": "b/g.txt",
+              "x": "shared/proto", "xf": "shared/proto/api.txt", "yf": "docs/readme.txt"},
     "space": {"a": "sp ce", "b": "sp ce2", "af": "sp ce/f ile.txt", "ag": "sp ce/g.txt", "bf": "sp ce2/f.txt", "bi": "sp ce2/i i.log",
-              "ah": "sp ce/h  h.txt", "bg": "sp ce2/g g.txt"},
+              "ah": "sp ce/h  h.txt", "bg": "sp ce2/g g.txt", "x": "sh ared/pro to", "xf": "sh ared/pro to/a pi.txt", "yf": "do cs/read me.txt"},
     "utf": {"a": "ünï", "b": "lib", "af": "ünï/fé.txt", "ag": "ünï/g.txt", "bf": "lib/日本.txt", "bi": "lib/i.log",
-            "ah": "ünï/h.txt", "bg": "lib/gß.txt"},
+            "ah": "ünï/h.txt", "bg": "lib/gß.txt", "x": "gemeinsam/prötö", "xf": "gemeinsam/prötö/äpi.txt", "yf": "dökümente/lies mich.txt"},
     "quote": {"a": "a", "b": "b", "af": "a/q\"uote.txt", "ag": "a/back\\slash.txt", "bf": "b/tab\tname.txt", "bi": "b/i.log",
-              "ah": "a/h.txt", "bg": "b/g.txt"},
+              "ah": "a/h.txt", "bg": "b/g.txt", "x": "shared/proto", "xf": "shared/proto/a'pi.txt", "yf": "docs/read\"me.txt"},
 }
 
 
@@ -41,7 +42,8 @@ class RepoSim:
         self.ids = ids
         self.ignored = ignored
         tA, tB = self.names["a"], self.names["b"]
-        targets = [{"path": tA}, {"path": tB, "uses": [self.names["ag"]]}]
+        # b uses a file of a and a directory that lies in no target (a path under it belongs to b and to nothing else)
+        targets = [{"path": tA}, {"path": tB, "uses": [self.names["ag"], self.names["x"]]}]
         self.fx = fixture.Fixture(bins, targets, gitignore="*.log\n")
         fx = self.fx
         self.id2path = {i: self.names[i] for i in ids}
@@ -430,7 +432,7 @@ def run(pid, tier):
         jobs.append((i, h, schemes[i % len(schemes)], ["af", "ag", "bf", "bi"], ["bi"]))
     nr = 12 if tier == "quick" else 200
     for j in range(nr):
-        ids = ["af", "ag", "ah", "bf", "bg", "bi"]
+        ids = ["af", "ag", "ah", "bf", "bg", "bi", "xf", "yf"]
         jobs.append((len(behs) + j, random_actions(random.Random(chk.seed * 1000 + j), ids, ["bi"], rng.randint(20, 45)),
                      schemes[j % len(schemes)], ids, ["bi"]))
     # bulk change sets (sizes around analyze's batch size and git output buffer boundaries)
